@@ -1178,12 +1178,15 @@ where
     }
 }
 
+// Items of different stores (e.g. data or keys of two different annotation data sets, which each number their
+// items from zero) are different items even if their handles are equal: the handle is only unique within
+// the store that holds the item.
 impl<'store, T> PartialEq for ResultItem<'store, T>
 where
     T: Storable,
 {
     fn eq(&self, other: &Self) -> bool {
-        self.handle() == other.handle()
+        self.handle() == other.handle() && std::ptr::eq(self.store, other.store)
     }
 }
 impl<'store, T> Eq for ResultItem<'store, T> where T: Storable {}
@@ -1192,7 +1195,8 @@ where
     T: Storable,
 {
     fn hash<H: Hasher>(&self, state: &mut H) {
-        self.handle().hash(state)
+        self.handle().hash(state);
+        (self.store as *const T::StoreType as usize).hash(state);
     }
 }
 impl<'store, T> PartialOrd for ResultItem<'store, T>
@@ -1200,7 +1204,7 @@ where
     T: Storable,
 {
     fn partial_cmp(&self, other: &Self) -> Option<Ordering> {
-        Some(self.handle().cmp(&other.handle()))
+        Some(self.cmp(other))
     }
 }
 impl<'store, T> Ord for ResultItem<'store, T>
@@ -1208,7 +1212,11 @@ where
     T: Storable,
 {
     fn cmp(&self, other: &Self) -> Ordering {
-        self.handle().cmp(&other.handle())
+        //by handle (chronologically), items of different stores with the same handle in a fixed (arbitrary) order
+        self.handle().cmp(&other.handle()).then_with(|| {
+            (self.store as *const T::StoreType as usize)
+                .cmp(&(other.store as *const T::StoreType as usize))
+        })
     }
 }
 
